@@ -4178,7 +4178,35 @@ class FieldDataOps:
         if source.indexed:
             return ops.isin_for_indexed_string_field(test_elements, source.indices[:], source.values[:])
         else:
-            return np.isin(source.data[:], test_elements)
+            data = source.data[:]
+            if data.dtype.kind in 'iu':
+                test_elements = FieldDataOps._exact_integer_tests(test_elements, data.dtype)
+            return np.isin(data, test_elements)
+
+    @staticmethod
+    def _exact_integer_tests(test_elements, dtype):
+        """
+        Test values for np.isin on an integer column of the given dtype, such that the comparison is exact.
+
+        numpy types a list that mixes values >= 2**63 with smaller ones as float64, and np.isin merges a uint64
+        column with int64 test values (any longer list of plain ints) in float64: integers beyond 2**53 are then
+        confused with their neighbours. When every test value is an integer (None entries match no row), keep the
+        values that the column's dtype can hold, in that dtype; anything else is left to numpy as before.
+        """
+        if isinstance(test_elements, np.ndarray):
+            if test_elements.ndim != 1 or not (test_elements.dtype == object or (
+                    test_elements.dtype.kind in 'iu' and np.result_type(test_elements.dtype, dtype).kind == 'f')):
+                return test_elements
+            members = test_elements.tolist()
+        elif isinstance(test_elements, (list, tuple)):
+            members = test_elements
+        else:
+            return test_elements
+        members = [x for x in members if x is not None]
+        if not all(isinstance(x, (int, np.integer)) for x in members):
+            return test_elements
+        info = np.iinfo(dtype)
+        return np.array([int(x) for x in members if info.min <= int(x) <= info.max], dtype=dtype)
 
     @staticmethod
     def apply_unique(src: Field, return_index=False, return_inverse=False, return_counts=False) -> np.ndarray:
